@@ -26,6 +26,16 @@ CLAIMED['C15'] = dict(
     note='Trusted: Lean kernel; CPython routes global resolution through find_class except for the copyreg extension cache (modelled; finding F22); what allowed '
          'callables do when called is outside the model; memo sharing of mutable containers not modelled.',
     technique='Lean 4 proof (state invariant by induction over opcode steps) + differential correspondence against the real unpickler')
+CLAIMED['C14'] = dict(
+    text='Lean 4 theorem that the model unpickler inverts the model pickler on every payload of the delta vocabulary (any nesting/size: plain data, types as '
+         'values, NoneType via persistent id, objects pickled through __reduce_ex__), hence every dump loads, re-dumping is stable and anything computed from the '
+         'payload is unchanged; the globals such payloads name are on the regenerated allow-list. Tied to the code in both directions on every run: real '
+         'Delta dumps are executed by the Lean VM and the model pickler output is loaded by the real restricted unpickler; payload, behaviour on several bases, '
+         'bytes/file/path/JSON channels and second dumps are compared on the implementation.',
+    design='5/C14',
+    note='Trusted: Lean kernel; CPython pickler/unpickler and json (modelled, cross-validated, not verified). JSON text validity and numpy payloads are observed only. '
+         'Known finding F11 (JSON + opcodes with builtin json).',
+    technique='Lean 4 proof (decode . encode = id by mutual structural induction) + two-way differential correspondence')
 NA = {}
 
 checks = []
